@@ -1,0 +1,55 @@
+//go:build verif
+
+package iavl
+
+import (
+	"bytes"
+
+	"github.com/cosmos/iavl/internal/encoding"
+)
+
+// Hooks for the verification harness in /verif. Compiled only with `-tags verif`; nothing here
+// changes behaviour unless the harness installs VerifYieldHook.
+
+// VerifYieldHook, when set, is called at named points of the commit / prune protocol so that a
+// schedule explorer can park the calling goroutine there.
+var VerifYieldHook func(point string)
+
+func verifYield(point string) {
+	if h := VerifYieldHook; h != nil {
+		h(point)
+	}
+}
+
+// Re-exports of internal/encoding decoders (an internal package cannot be imported by the harness).
+func VerifDecodeBytes(bz []byte) ([]byte, int, error)   { return encoding.DecodeBytes(bz) }
+func VerifDecodeUvarint(bz []byte) (uint64, int, error) { return encoding.DecodeUvarint(bz) }
+func VerifDecodeVarint(bz []byte) (int64, int, error)   { return encoding.DecodeVarint(bz) }
+
+// VerifNodeInfo exposes the decoded fields of a Node for comparison with an independent decoder.
+type VerifNodeInfo struct {
+	Version, Size     int64
+	Nonce             uint32
+	Height            int8
+	Key, Value, Hash  []byte
+	LeftKey, RightKey []byte
+	IsLegacy          bool
+}
+
+func VerifNodeInfoOf(n *Node) VerifNodeInfo {
+	info := VerifNodeInfo{Size: n.size, Height: n.subtreeHeight, Key: n.key, Value: n.value, Hash: n.hash,
+		LeftKey: n.leftNodeKey, RightKey: n.rightNodeKey, IsLegacy: n.isLegacy}
+	if n.nodeKey != nil {
+		info.Version, info.Nonce = n.nodeKey.version, n.nodeKey.nonce
+	}
+	return info
+}
+
+// VerifEncodeNode returns the stored form of a decoded node (writeBytes).
+func VerifEncodeNode(n *Node) ([]byte, error) {
+	var buf bytes.Buffer
+	if err := n.writeBytes(&buf); err != nil {
+		return nil, err
+	}
+	return buf.Bytes(), nil
+}
